@@ -287,6 +287,58 @@ def runtime_checks():
     from neurodiffeq import operators as ops
     bad = []
     col = lambda *v: torch.tensor([[float(a)] for a in v], requires_grad=True)
+    # the operators are functions of the tensors they are given: what other parts of the library did with them earlier in the process -
+    # here a stream-plot monitor (which calls grad) that was mis-configured and raised - must not matter to any observation below
+    try:
+        import matplotlib
+        matplotlib.use('Agg')
+        from neurodiffeq.monitors import StreamPlotMonitor2D
+        from neurodiffeq.conditions import NoCondition
+        from neurodiffeq.networks import FCNN
+        import warnings
+        with warnings.catch_warnings():
+            warnings.simplefilter('ignore')
+            mon = StreamPlotMonitor2D((0., 0.), (1., 1.), pairs=[0, 3], nx=4, ny=4)       # unknown 3 does not exist
+            try:
+                mon.check([FCNN(2, 1, hidden_units=(3,))], [NoCondition()], {'train_loss': [1.0], 'valid_loss': [1.0]})
+            except Exception:
+                pass
+            import matplotlib.pyplot as plt
+            plt.close('all')
+    except Exception:
+        pass
+    x, y = col(0.3, -1.2, 2.0), col(1.1, 0.4, -0.7)
+    u = x ** 2 * y + torch.sin(y)
+    for nm, got, want in (('laplacian', ops.laplacian(u, x, y), 2 * y - torch.sin(y)), ('div(grad)', ops.div(*ops.grad(u, x, y), x, y), 2 * y - torch.sin(y)),
+                          ('grad(grad[0])[1]', ops.grad(ops.grad(u, x, y)[0], x, y)[1], 2 * x)):
+        if not torch.is_tensor(got) or not torch.allclose(got.detach(), want.detach(), rtol=1e-12, atol=1e-12) or not got.requires_grad:
+            bad.append(dict(case='operators used after a mis-configured stream-plot monitor raised in the same process', violated=nm,
+                            got=got.detach().reshape(-1).tolist() if torch.is_tensor(got) else repr(got), want=want.detach().reshape(-1).tolist()))
+    # coordinates that are not finite in some rows (points at infinity of a compactified axis, padding rows): a field that does not depend
+    # on such a coordinate has partial derivative exactly 0 there, and the other partials are unaffected
+    inf = float('inf')
+    x, y, z = col(0.3, -1.2, 2.0), col(inf, 0.4, -inf), col(-0.5, float('nan'), 1.6)
+    f = torch.sin(x) * 2.0
+    for opn, got, want in (('grad(f(x), x, y, z)[1]', ops.grad(f, x, y, z)[1], torch.zeros(3, 1)), ('grad(f(x), x, y, z)[2]', ops.grad(f, x, y, z)[2], torch.zeros(3, 1)),
+                           ('grad(f(x), x, y, z)[0]', ops.grad(f, x, y, z)[0], 2.0 * torch.cos(x)),
+                           ('curl(0, 0, f(x))[0]', ops.curl(x * 0, x * 0, f, x, y, z)[0], torch.zeros(3, 1))):
+        if not torch.allclose(got.detach(), want.detach(), rtol=0, atol=1e-12, equal_nan=False):
+            bad.append(dict(case='rows in which a coordinate the field does not depend on is inf / nan', violated=opn, got=got.detach().reshape(-1).tolist(),
+                            want=want.detach().reshape(-1).tolist()))
+    # components and coordinates of different precision (a float32 network evaluated on float64 points)
+    try:
+        x, y = col(0.3, -1.2, 2.0).double().detach().requires_grad_(), col(1.1, 0.4, -0.7).double().detach().requires_grad_()
+        u32, v32 = (x.float() ** 2) * y.float(), torch.sin(x.float()) + y.float() ** 3
+        got = ops.div(u32, v32, x, y)
+        want = 2 * x * y + 3 * y ** 2
+        if not torch.is_tensor(got) or tuple(got.shape) != (3, 1) or not torch.allclose(got.detach().double(), want.detach(), rtol=1e-5, atol=1e-5):
+            bad.append(dict(case='float32 components on float64 coordinates', violated='div', got=got.detach().reshape(-1).tolist() if torch.is_tensor(got) else repr(got),
+                            want=want.detach().reshape(-1).tolist()))
+        lg = ops.laplacian(u32, x, y)
+        if not torch.allclose(lg.detach().double(), (2 * y).detach(), rtol=1e-5, atol=1e-5):
+            bad.append(dict(case='float32 components on float64 coordinates', violated='laplacian', got=lg.detach().reshape(-1).tolist(), want=(2 * y).detach().reshape(-1).tolist()))
+    except Exception as e:
+        bad.append(dict(case='float32 components on float64 coordinates', error=f'{type(e).__name__}: {e}'))
 
     def zero(t, what, ctx):
         if t is None or not torch.is_tensor(t) or t.shape != (3, 1) or float(t.detach().abs().max()) != 0.0:
